@@ -17,8 +17,9 @@
        are white space too (6.4p3) but a newline ends a directive line, so not inside one;
        no white space at all is legal between two tokens that do not fuse (one of them is one
        of ( ) [ ] { } , ; and no '#' line is involved);
-     * backslash-newline is deleted in phase 2: legal in every gap of a #define line after
-       the '#' (the property speaks of #define lines only);
+     * backslash-newline is deleted in phase 2 (the property speaks of #define lines only): with
+       white space around it, legal in every gap of a #define line after the '#'; bare, only
+       where the two neighbouring tokens do not fuse into one ('define' 'FOO', 'FOO' '42' do);
      * a line directive ('# N "file"', '#line N "file"', '# N') stands on a line of its own:
        legal in every gap of a declaration line (rendered with a newline before and after),
        not inside a #define line.
@@ -91,6 +92,11 @@ Trivia == {
 Tight == {"(", ")", "[", "]", "{", "}", ",", ";"}
 TokAt(ln, p) == IF p >= 1 /\ p <= Len(ln.toks) THEN ln.toks[p] ELSE ""
 
+(* two tokens that become one when nothing but a deleted backslash-newline stands between them
+   ('define' 'FOO' -> 'defineFOO', 'FOO' '42' -> 'FOO42'): both are identifiers or numbers *)
+WordLike(t) == t \notin {"#", "-", "...", ""}
+Fuses(a, b) == WordLike(a) /\ WordLike(b)
+
 (* THE LEGALITY CONDITIONS *)
 Legal(ln, p, tr) ==
     LET n == Len(ln.toks)
@@ -101,7 +107,7 @@ Legal(ln, p, tr) ==
          [] tr.kind = "hspace"       -> TRUE
          [] tr.kind = "vspace"       -> ~def \/ p = n
          [] tr.kind = "nospace"      -> ~def /\ p >= 1 /\ p < n /\ (TokAt(ln, p) \in Tight \/ TokAt(ln, p + 1) \in Tight)
-         [] tr.kind = "continuation" -> def /\ p >= 1
+         [] tr.kind = "continuation" -> def /\ p >= 1 /\ (tr.text = "\\\n" => p = n \/ ~Fuses(TokAt(ln, p), TokAt(ln, p + 1)))
          [] tr.kind = "directive"    -> ~def
 
 (* how a piece of trivia is written into its gap: what replaces the single separating space *)
